@@ -1,10 +1,13 @@
 /-
   C11 — join() means finished; stop() always terminates; the pool is restartable.
   Model: JRV.Model.Pool.  Theorems over every reachable state (all interleavings, programs, timings).
+  `C11_stop_no_stuck` assumes, and says so, that the pool was built with a finite `timeout` (`cfg.timeoutNone = false`):
+  with `timeout=None` (accepted unvalidated by the constructor) `stop()` can block for ever in its `queue.put` — see the
+  example after it.  Companion theorems of the extracted facts: JRV/Properties/C11Gen.lean.
 -/
 import JRV.Lemmas.PoolTask2
 import JRV.Lemmas.PoolC11
-import JRV.Generated
+import JRV.Lemmas.PoolC11Join
 
 set_option linter.unusedSimpArgs false
 set_option linter.unusedVariables false
@@ -382,6 +385,78 @@ theorem C11_restart_spawn (s : State) (c : Client) (k : Nat) (hc : s.clients[0]?
     first | rfl | simp | (split <;> simp_all)
   simp only [run, e1, e2, e3]
 
+/-! ### `join()` on a running pool: True means *finished*, not merely "finished or dropped" -/
+
+/-- Program counters of `clear()` (called directly, or as the last part of `stop()`). -/
+def inClear (pc : CPc) : Bool :=
+  match pc with
+  | .clrAcq | .clrGet | .clrDone _ | .clrJoin | .clrRel => true
+  | _ => false
+
+/-- The pool is running and the controlling thread is not inside `clear()`. -/
+def runningNoClear (s : State) : Prop :=
+  s.stop = false ∧ ∀ c, s.clients[0]? = some c → inClear c.pc = false
+
+private theorem noClearGet_of_running {cfg : Config} {n : Nat} (hs : cfg.singleCtl = true) {s0 s : State}
+    (hr0 : Reach (init cfg n) s0) (hvia : ReachVia runningNoClear s0 s) : ReachVia noClearGet s0 s := by
+  have key : ∀ x, Reach (init cfg n) x → runningNoClear x → noClearGet x := by
+    intro x hrx hx c hc hpc
+    obtain ⟨j, hj⟩ := List.getElem?_of_mem hc
+    have h0 : j = 0 := (CtlInv_reach hs hrx).only j c hj (by simp [hpc, C11L.ctlPc])
+    subst h0
+    have := hx.2 c hj
+    simp [hpc, inClear] at this
+  induction hvia with
+  | refl h0 => exact ReachVia.refl (key _ hr0 h0)
+  | step a hprev hst hp ih =>
+    exact ReachVia.step a ih hst (key _ (C11_restart_reach cfg n _ _ hr0 (Reach.step a hprev.reach hst)) hp)
+
+/-- **On a running pool `join()` returns `True` only when every task enqueued before the call has FINISHED executing.**
+    Let `s0` be any reachable state (in particular: the state in which `join()` is called) and let the pool stay running
+    with the controlling thread outside `clear()` (`runningNoClear`: flag clear — so no `stop()` is past its `event.set`
+    — and no direct `clear()`) in every state from `s0` up to the state `s` in which the last step of `join()`
+    (`Queue.join` returning) is taken.  Then every task that was accepted (phase beyond `created`) and not already dropped
+    in `s0` is in phase `finished` when `join()` returns `True` — not merely "finished or dropped" (`C11_join_true`,
+    which needs no such hypothesis).  Single controlling thread. -/
+theorem C11_join_true_running (cfg : Config) (n : Nat) (s0 s s' : State) (hs : cfg.singleCtl = true)
+    (hr0 : Reach (init cfg n) s0) (hvia : ReachVia runningNoClear s0 s)
+    (i : Nat) (c : Client) (hc : s.clients[i]? = some c) (hpc : c.pc = .joinQ)
+    (h : step? s ⟨.client i, .queueJoin, false⟩ = some s')
+    (t : Nat) (tk0 : Task) (ht : s0.tasks[t]? = some tk0) (hacc : tk0.phase ≠ .created) (hnd : tk0.phase ≠ .dropped) :
+    s'.clients[i]? = some { pc := .idle, ret := .bool true } ∧
+    ∃ tk, s'.tasks[t]? = some tk ∧ tk.phase = .finished ∧ tk.execCount = 1 := by
+  have hr : Reach (init cfg n) s := C11_restart_reach cfg n s0 s hr0 hvia.reach
+  obtain ⟨h1, h2, h3⟩ := C11_join_true cfg n s s' hr i c hc hpc h
+  obtain ⟨tk, htk, hnc, hndd⟩ := phase_kept (noClearGet_of_running hs hr0 hvia) ht hacc hnd
+  rw [← h2] at htk
+  have hu := h3 t tk htk
+  have hfin : tk.phase = .finished := by
+    unfold unfinishedTask at hu
+    cases hp : tk.phase <;> simp_all
+  refine ⟨h1, tk, htk, hfin, ?_⟩
+  have := (TaskInv_reach (Reach.step _ hr h)).exec t tk htk
+  rw [this, hfin]; rfl
+
+/-- The same for `join(t)` answering `True`. -/
+theorem C11_join_timeout_true_running (cfg : Config) (n : Nat) (s0 s s' : State) (hs : cfg.singleCtl = true)
+    (hr0 : Reach (init cfg n) s0) (hvia : ReachVia runningNoClear s0 s)
+    (i : Nat) (c : Client) (hc : s.clients[i]? = some c) (op : Op) (tmo : Bool)
+    (hpc : c.pc = .jtAcq ∨ ∃ b, c.pc = .jtWait b)
+    (h : step? s ⟨.client i, op, tmo⟩ = some s') (c' : Client) (hc' : s'.clients[i]? = some c') (hidle : c'.pc = .idle)
+    (hret : c'.ret = .bool true)
+    (t : Nat) (tk0 : Task) (ht : s0.tasks[t]? = some tk0) (hacc : tk0.phase ≠ .created) (hnd : tk0.phase ≠ .dropped) :
+    ∃ tk, s'.tasks[t]? = some tk ∧ tk.phase = .finished := by
+  have hr : Reach (init cfg n) s := C11_restart_reach cfg n s0 s hr0 hvia.reach
+  obtain ⟨h2, _, _, _, h3⟩ := C11_join_timeout cfg n s s' hr i c hc op tmo hpc h c' hc' hidle
+  obtain ⟨tk, htk, hnc, hndd⟩ := phase_kept (noClearGet_of_running hs hr0 hvia) ht hacc hnd
+  rw [← h2] at htk
+  rcases h3 with ⟨_, hall⟩ | ⟨hf, _⟩
+  · have hu := hall t tk htk
+    refine ⟨tk, htk, ?_⟩
+    unfold unfinishedTask at hu
+    cases hp : tk.phase <;> simp_all
+  · rw [hret] at hf; cases hf
+
 /-! ### `stop()` always returns: no stuck state, and a measure that every step towards the return lowers -/
 
 /-- **`stop()` is never stuck** (single controlling thread, any number of enqueuing / joining client threads, every
@@ -391,11 +466,15 @@ theorem C11_restart_spawn (s : State) (c : Client) (k : Nat) (hc : s.clients[0]?
     enabled: a non-environment action of a worker, of the controller — other than going round its `is_alive`/`join(3)`
     loop on a thread that is still alive — or of another client that owns the pool lock (finishing the critical section
     of its `enqueue`).  Time-outs count as actions (a timed `put`/`get`/`join(3)` returns when its time is up); the
-    time-outs of *other* clients' `join(t)`/`result(t)` are not counted as progress. -/
-theorem C11_stop_no_stuck (cfg : Config) (n : Nat) (s : State) (hs : cfg.singleCtl = true) (hr : Reach (init cfg n) s)
+    time-outs of *other* clients' `join(t)`/`result(t)` are not counted as progress.
+    `htm`: the pool's `timeout` is finite (`cfg.timeoutNone = false`) — the explicit assumption under which the timed
+    `put` of a sentinel into a full bounded queue and the timed `get` of an idle worker have a time-out branch at all. -/
+theorem C11_stop_no_stuck (cfg : Config) (n : Nat) (s : State) (hs : cfg.singleCtl = true)
+    (htm : cfg.timeoutNone = false) (hr : Reach (init cfg n) s)
     (c : Client) (hc : s.clients[0]? = some c) (hin : C11L.inStop s c.pc = true) :
     (∃ w ∈ s.workers, w.pc = .body) ∨ ∃ a s', progressing s a = true ∧ step? s a = some s' :=
-  stop_no_stuck (BaseInv_reach hr) (TaskInv_reach hr) (CtlInv_reach hs hr) (QueueInv_reach hs hr) hc hin
+  stop_no_stuck (by rw [cfg_reach hr]; exact htm) (BaseInv_reach hr) (TaskInv_reach hr) (CtlInv_reach hs hr)
+    (QueueInv_reach hs hr) hc hin
 
 /-- **The termination measure of `stop()`.**  `stopMeasure s` = the (weighted) steps every live worker still has to take
     to its terminal program counter under the set flag + the remaining steps of the `enqueue` calls in progress + the
@@ -421,6 +500,27 @@ theorem C11_stop_measure (cfg : Config) (n : Nat) (s s' : State) (a : Action) (h
 theorem C11_stop_flag (cfg : Config) (n : Nat) (s : State) (hs : cfg.singleCtl = true) (hr : Reach (init cfg n) s)
     (c : Client) (hc : s.clients[0]? = some c) (hin : joinPhase c.pc = true) : s.stop = true :=
   (CtlInv_reach hs hr).stop.flag c hc hin
+
+/-- Why `C11_stop_no_stuck` assumes a finite `timeout`: `ThreadPool(1, 1, queue_size=1, timeout=None)` — the worker runs a
+    task, a second task fills the queue, `stop()` reaches the `put` of its sentinel: the queue is full and the put has
+    no time-out; the worker is inside the task body.  When the body has ended the worker needs the pool lock for its
+    accounting (`pending -= 1`), which `stop()` holds while it waits in `put` — `stop()` is blocked for ever: no action of
+    any thread is enabled except new API calls of the other client (whose `enqueue` would block on the pool lock). -/
+example : ∃ s, run (init { max := 1, min := 1, qbound := 1, timeoutNone := true } 2)
+    [⟨.client 0, .callStart, false⟩, ⟨.client 0, .eventIsSet, false⟩, ⟨.client 0, .eventClear, false⟩,
+     ⟨.client 0, .queueQsize, false⟩, ⟨.client 0, .lockAcquire, false⟩, ⟨.client 0, .eventIsSet, false⟩,
+     ⟨.client 0, .lockRelease, false⟩,
+     ⟨.client 1, .callEnqueue, false⟩, ⟨.client 1, .lockAcquire, false⟩, ⟨.client 1, .queuePut, false⟩, ⟨.client 1, .lockRelease, false⟩,
+     ⟨.worker 0, .eventIsSet, false⟩, ⟨.worker 0, .queueGet, false⟩, ⟨.worker 0, .lockAcquire, false⟩, ⟨.worker 0, .lockRelease, false⟩,
+     ⟨.worker 0, .taskBegin, false⟩,
+     ⟨.client 1, .callEnqueue, false⟩, ⟨.client 1, .lockAcquire, false⟩, ⟨.client 1, .queuePut, false⟩, ⟨.client 1, .lockAcquire, false⟩,
+     ⟨.client 1, .lockRelease, false⟩, ⟨.client 1, .lockRelease, false⟩,
+     ⟨.client 0, .callStop, false⟩, ⟨.client 0, .eventIsSet, false⟩, ⟨.client 0, .eventSet, false⟩, ⟨.client 0, .lockAcquire, false⟩,
+     ⟨.worker 0, .taskEnd .ok, false⟩, ⟨.worker 0, .futSet, false⟩, ⟨.worker 0, .queueTaskDone, false⟩] = some s ∧
+    s.clients.map (·.pc) = [.stopPut 1, .idle] ∧ s.workers.map (·.pc) = [.finAcq] ∧ s.queue = [.task 1] ∧
+    step? s ⟨.client 0, .queuePut, false⟩ = none ∧ step? s ⟨.client 0, .queuePut, true⟩ = none ∧
+    step? s ⟨.worker 0, .lockAcquire, false⟩ = none := by
+  refine ⟨_, rfl, ?_, ?_, ?_, ?_, ?_, ?_⟩ <;> rfl
 
 /-! ### non-vacuity: a complete life cycle on concrete action lists -/
 
@@ -508,9 +608,22 @@ example : ∃ s c, run (init cfg1 2) (startRun ++ enqRun ++ [wa 0 .eventIsSet, w
     step? s (ca 0 .queueJoin) = none ∧ step? s (wa 0 .lockAcquire) = none :=
   ⟨_, _, rfl, rfl, rfl, rfl, rfl, rfl, rfl, rfl, rfl, rfl⟩
 
-theorem C11_gen_poolJoinShape : Generated.poolJoinShape = some joinShapeSpec := by decide
-theorem C11_gen_poolUnlockedAccesses : Generated.poolUnlockedAccesses = some unlockedAccessesSpec := by decide
-theorem C11_gen_poolSpawnRefusal : Generated.poolSpawnRefusal = some spawnRefusalSpec := by decide
-theorem C11_gen_poolClearDecrementsTasksOnly : Generated.poolClearDecrementsTasksOnly = some clearDecrementsTasksOnlySpec := by decide
+/-- Non-vacuity of `C11_join_true_running`: client 1 enqueues a task on the running pool and calls `join()` (`s0` = the
+    state of the call); the worker runs the task; every state up to the return of `join()` is running with the controller
+    idle; the last step of `join()` is then enabled and the task is finished, executed once. -/
+example : ∃ s0 s s', run (init cfg1 2) (startRun ++ enqRun ++ [ca 1 .callJoin]) = some s0 ∧
+    run s0 (takeRun ++ [wa 0 (.taskEnd .ok), wa 0 .futSet, wa 0 .queueTaskDone]) = some s ∧
+    step? s (ca 1 .queueJoin) = some s' ∧
+    s0.tasks.map (·.phase) = [.queued] ∧ s.stop = false ∧ s.clients.map (·.pc) = [.idle, .joinQ] ∧
+    s'.tasks.map (fun t => (t.phase, t.execCount)) = [(.finished, 1)] ∧ s'.clients.map (·.ret) = [.unit, .bool true] := by
+  refine ⟨_, _, _, rfl, rfl, rfl, ?_, ?_, ?_, ?_, ?_⟩ <;> rfl
+
+/-- Non-vacuity of `C11_join_timeout_true_running`: the same history with `join(t)` called once the task is over — its
+    first operation finds nothing unfinished and answers `True`; the task is finished. -/
+example : ∃ s0 s s', run (init cfg1 2) (startRun ++ enqRun) = some s0 ∧
+    run s0 (takeRun ++ [wa 0 (.taskEnd .ok), wa 0 .futSet, wa 0 .queueTaskDone, ca 1 .callJoinT]) = some s ∧
+    step? s (ca 1 .condAcquire) = some s' ∧ s.stop = false ∧ s.clients.map (·.pc) = [.idle, .jtAcq] ∧
+    s'.tasks.map (·.phase) = [.finished] ∧ s'.clients.map (·.ret) = [.unit, .bool true] := by
+  refine ⟨_, _, _, rfl, rfl, rfl, ?_, ?_, ?_, ?_⟩ <;> rfl
 
 end JRV.Props
